@@ -911,6 +911,10 @@ pub enum ParamTemplate {
     /// `q::_ :` 1..4 alternatives (literal or empty, each under a condition from a small table): single guarded
     /// rules, several nullability clauses for one symbol, or-conditions
     Guarded { alts: Vec<(u8, u8)>, consts: u8 },
+    /// like `Guarded`, but the start alternatives are told apart only *after* the parametric symbol
+    /// (`start: "z" | p::0 "0" | p::1 "1" | ...`): the same symbol is predicted with several parameter values at
+    /// one input position, and each completion must go back to the item that predicted that value
+    Suffixed { alts: Vec<(u8, u8)>, consts: u8 },
 }
 
 const LETTERS: &[&str] = &["a", "b", "c", "d", "e", "f"];
@@ -1057,7 +1061,8 @@ impl ParamTemplate {
                 pb.prods.push(Prod { lhs: 1, rhs, cond });
                 pb.alt(false, "p", 1, "b", None, Cond::True);
             }
-            ParamTemplate::Guarded { alts, consts } => {
+            ParamTemplate::Guarded { alts, consts } | ParamTemplate::Suffixed { alts, consts } => {
+                let suffixed = matches!(self, ParamTemplate::Suffixed { .. });
                 n_nts = 3;
                 names.push("q".into());
                 // the generic "start: p::0x0" written by the prologue is replaced
@@ -1067,6 +1072,14 @@ impl ParamTemplate {
                 pb.prods.push(Prod { lhs: 0, rhs: lit("z"), cond: Cond::True });
                 for (i, pre) in ["", "k", "m", "n"].iter().enumerate() {
                     if consts & (1 << i) == 0 {
+                        continue;
+                    }
+                    if suffixed {
+                        let suf = ["0", "1", "2", "3"][i];
+                        let mut rhs = vec![BSym::Nt(1, PExpr::Const(i as u64))];
+                        rhs.extend(lit(suf));
+                        pb.lark.push_str(&format!(" | p::{:#x} {:?}", i, suf));
+                        pb.prods.push(Prod { lhs: 0, rhs, cond: Cond::True });
                         continue;
                     }
                     let mut rhs = lit(pre);
@@ -1158,6 +1171,8 @@ pub fn param_template() -> impl Strategy<Value = ParamTemplate> {
         (1u8..=4, 1u8..=3).prop_map(|(k, depth)| ParamTemplate::Grouped { k, depth }),
         (proptest::collection::vec((0u8..4, 0u8..8), 1..=4), 1u8..16).prop_map(|(alts, consts)| ParamTemplate::Guarded { alts, consts }),
         (proptest::collection::vec((0u8..2, 1u8..8), 1..=3), 1u8..16).prop_map(|(alts, consts)| ParamTemplate::Guarded { alts, consts }),
+        (proptest::collection::vec((0u8..4, 0u8..8), 1..=4), 1u8..16).prop_map(|(alts, consts)| ParamTemplate::Suffixed { alts, consts }),
+        (proptest::collection::vec((1u8..4, 1u8..8), 2..=4), 3u8..16).prop_map(|(alts, consts)| ParamTemplate::Suffixed { alts, consts }),
     ]
 }
 
